@@ -1277,6 +1277,8 @@ impl TypedScenario for Script {
 pub enum StatCfg {
     /// Limb::random_mod, cells = value (m <= 1024) or top bits
     LimbMod { m: u64 },
+    /// large single-limb moduli: eighths of [0, m)
+    LimbModRange { m: u64 },
     /// Uint<N>/BoxedUint random_mod with modulus t*2^(64 j) + low; cells = top-limb value x top 2 bits of next limb
     UintMod { limbs: usize, t: u64, j: usize, low: u8, boxed: bool },
     /// random_bits(b): b <= 10 all cells, else top 4 bits x bottom 4 bits
@@ -1383,6 +1385,10 @@ fn stat_configs(tier: Tier) -> Vec<StatCfg> {
     let mut v = Vec::new();
     for m in [1u64, 2, 3, 5, 7, 10, 255, 256, 257, 1000] {
         v.push(StatCfg::LimbMod { m });
+    }
+    // single-limb moduli that fill (or nearly fill) the limb, and one in the middle of it
+    for m in [3u64 << 62, (1u64 << 63) + 1, 1u64 << 63, u64::MAX, 0xd1b5_4a32_d192_ed03, (1u64 << 32) + 1, 5u64 << 37] {
+        v.push(StatCfg::LimbModRange { m });
     }
     let widths: &[usize] = match tier {
         Tier::Quick => &[2, 3],
@@ -1508,6 +1514,17 @@ fn exec_stat(p: &StatPlan, out: &mut RunOut) {
             run!(m as usize, vec![1.0 / m as f64; m as usize], format!("Limb::random_mod m={m}"), |t: &mut Tape| {
                 let v = Limb::random_mod(&mut SimRng(t), &nz).0;
                 if v >= m { Err(format!("value {v} >= modulus {m}")) } else { Ok(v as usize) }
+            });
+        }
+        StatCfg::LimbModRange { m } => {
+            let m = *m;
+            let nz = NonZero::new(Limb(m)).unwrap();
+            // cell k = [ceil(k m / 8), ceil((k+1) m / 8))
+            let bounds: Vec<u128> = (0..=8u128).map(|k| (k * m as u128 + 7) / 8).collect();
+            let pr: Vec<f64> = (0..8).map(|k| (bounds[k + 1] - bounds[k]) as f64 / m as f64).collect();
+            run!(8usize, pr, format!("Limb::random_mod m={m:#x}"), |t: &mut Tape| {
+                let v = Limb::random_mod(&mut SimRng(t), &nz).0;
+                if v >= m { Err(format!("value {v:#x} >= modulus {m:#x}")) } else { Ok(bounds[1..].iter().position(|b| (v as u128) < *b).unwrap_or(7)) }
             });
         }
         StatCfg::UintMod { limbs, t, j, low, boxed } => {
